@@ -59,4 +59,14 @@ def selftest_graph_level(ctx):
     def drop_delta(evs):
         return cc.drop_emit("ipset_delta")(evs)
 
-    return cc.selftest(ctx, P, [("lose_member", lose_member), ("extra_member", extra_member), ("drop_delta", drop_delta)], n_random=80)
+    def rewire_rule(evs):       # two rules of a policy reference each other's IP set (all sets stay referenced)
+        n = 0
+        for e in evs:
+            if e["ev"] == "emit" and e["m"]["kind"] == "policy_update":
+                rs = e["m"]["body"]["inr"]
+                if len(rs) >= 2 and len(rs[0]["src"]) == 1 and len(rs[1]["src"]) == 1 and rs[0]["src"] != rs[1]["src"]:
+                    rs[0]["src"], rs[1]["src"] = rs[1]["src"], rs[0]["src"]
+                    n += 1
+        return evs if n else None
+
+    return cc.selftest(ctx, P, [("lose_member", lose_member), ("extra_member", extra_member), ("drop_delta", drop_delta), ("rewire_rule", rewire_rule)], n_random=80)
